@@ -14,6 +14,7 @@ RULE = ('Exhaustive window: every start date from 2019-12-01 to 2024-03-31 (leap
 RULE += ' Every third random range also builds a BacktestTradingSession (daily, burn-in inside the range) and iterates its sim_engine: the same event list is required.'
 RULE += " Session clocks are built with UTC spelled as pytz.UTC / datetime.timezone.utc / 'UTC' in turn for start, end and burn-in."
 RULE += ' For ranges checked with re-use, copy.copy and copy.deepcopy of the engine must emit the same events.'
+RULE += ' A fifth of the random ranges start between 1950 and 1969.'
 ASSUMPTIONS = ['UTC timestamps; end time-of-day not before the start\'s (the quantifier)']
 EXHAUSTIVE = {'thorough': 'all (start date in 2019-12-01..2024-03-31) x (start 00:00|14:30) x (length 0..45 d) x 4 flag combinations'}
 
